@@ -621,19 +621,35 @@ impl TrampolineCodegen {
         }
 
         for (original, new) in IMPORTS {
-            match *original {
-                INPUT_READ_UTF8_STR => self.emit_shopify_function_input_read_utf8_str()?,
-                INPUT_GET_OBJ_PROP => self.emit_shopify_function_input_get_obj_prop()?,
-                OUTPUT_NEW_STR => self.emit_shopify_function_output_new_utf8_str()?,
-                INTERN_STR => self.emit_shopify_function_intern_utf8_str()?,
-                LOG_STR => self.emit_shopify_function_log_new_utf8_str()?,
-                original => self.rename_imported_func(original, new)?,
-            };
+            // A module may import the same function more than once: handle every occurrence.
+            loop {
+                let remaining = self.count_provider_imports(original);
+                match *original {
+                    INPUT_READ_UTF8_STR => self.emit_shopify_function_input_read_utf8_str()?,
+                    INPUT_GET_OBJ_PROP => self.emit_shopify_function_input_get_obj_prop()?,
+                    OUTPUT_NEW_STR => self.emit_shopify_function_output_new_utf8_str()?,
+                    INTERN_STR => self.emit_shopify_function_intern_utf8_str()?,
+                    LOG_STR => self.emit_shopify_function_log_new_utf8_str()?,
+                    original => self.rename_imported_func(original, new)?,
+                };
+                let left = self.count_provider_imports(original);
+                if left == 0 || left == remaining {
+                    break;
+                }
+            }
         }
 
         wasmparser::validate(&self.module.emit_wasm())
             .context("Validating output module failed")?;
         Ok(self.module)
+    }
+
+    fn count_provider_imports(&self, name: &str) -> usize {
+        self.module
+            .imports
+            .iter()
+            .filter(|import| import.module == PROVIDER_MODULE_NAME && import.name == name)
+            .count()
     }
 
     fn validate_params_and_results(
